@@ -13,7 +13,7 @@
 //   apicommit     the pending queue.Lock/Unlock/Cancel call of container c is answered
 //   apifail       ... with an error and no effect
 // Environment steps change vSim (if enabled there; otherwise they are counted as skipped):
-//   usercancel userhold procrunning procfinalize procend proccrash vmboot vmbreak opsetib update
+//   usercancel userhold procrunning procfinalize procend proccrash vmboot vmbreak vmreportbroken opsetib update syncfail
 //   probestart probeend startexec killtick idleshutdown opkill destroyok instancegone restart
 // Random scenarios (mode "random"): the driver draws enabled steps itself with a seeded generator
 // over larger instances; same recording.
@@ -365,14 +365,32 @@ func (r *vSchedRun) apply(st vStep, ahead []vStep) bool {
 					list[x] = true
 				}
 			}
-			s.probing[w] = &vProbe{on: true, booted: bt, ok: ok, list: list}
+			s.probing[w] = &vProbe{on: true, booted: bt, ok: ok, list: list, rb: ok && s.rb[w]}
 			delete(s.dirty, w)
+			return true
+		}
+	case "vmreportbroken":
+		if s.exists[w] && !s.rb[w] {
+			s.rb[w] = true
+			return true
+		}
+	case "syncfail":
+		return true
+	case "probedrain":
+		if p := s.probing[w]; p.on && p.rb && s.ib[w] == "run" && s.wk[w].st != "absent" && s.wk[w].st != "shutdown" {
+			s.ib[w] = "drain"
+			s.ev(map[string]interface{}{"ev": "setib", "w": w, "b": "drain"})
 			return true
 		}
 	case "probeend":
 		p := s.probing[w]
 		if !p.on {
 			return false
+		}
+		if p.rb && s.ib[w] == "run" && s.wk[w].st != "absent" && s.wk[w].st != "shutdown" {
+			// an answer that says "broken" drains the worker first (probeAndUpdate)
+			s.ib[w] = "drain"
+			s.ev(map[string]interface{}{"ev": "setib", "w": w, "b": "drain"})
 		}
 		s.probing[w] = &vProbe{}
 		wk := s.wk[w]
@@ -480,6 +498,7 @@ func (r *vSchedRun) apply(st vStep, ahead []vStep) bool {
 		if s.wk[w].st == "shutdown" && s.exists[w] {
 			s.exists[w], s.booted[w] = false, false
 			s.procs[w] = map[int]bool{}
+			delete(s.rb, w)
 			s.ib[w] = "run"
 			s.ev(map[string]interface{}{"ev": "vmgone", "w": w})
 			return true
@@ -536,6 +555,7 @@ func (r *vSchedRun) candidates(scn *vSchedScenario, restartsLeft int) []vStep {
 		}
 		if s.exists[w] {
 			add("vmbreak", 0, w, "", 1)
+			add("vmreportbroken", 0, w, "", 1)
 		}
 		if s.wk[w].st != "absent" {
 			add("probestart", 0, w, "", 4)
